@@ -1,4 +1,5 @@
 import Proofs.Syncer
+import Proofs.NetSteps2
 /-!
 # C04 — The routing table mirrors what each node advertises
 
@@ -304,5 +305,14 @@ theorem C04_unparsable_count_keeps_old :
   decide
 
 end Examples
+
+/-- **Discharging `NoLivenessAfterLeave`.**  The gossip layer (`UpdateLiveness`, the only source of
+reachable/unreachable notifications) never announces them for the local node or for a node whose
+`left` flag is set - for every state and every suspicion verdict.  (The syncer itself would set a
+left row ACTIVE on `OnReachable`: `C04_reachable_overrides_left`.) -/
+theorem C04_gossip_no_liveness_after_leave (s : Gossip.CState) (f : String → Bool) (now : Nat) :
+    ∀ e ∈ (Gossip.updateLiveness s f now).2, ∃ p ∈ s.nodes,
+      (e = .unreachable p.2.id ∨ e = .reachable p.2.id) ∧ p.2.left = false ∧ p.2.id ≠ s.localId :=
+  Gossip.updateLiveness_events s f now
 
 end Piko
